@@ -109,6 +109,10 @@ package json
 //@   modifies *
 //@   ensures wf: wfPeeker(p)
 //@   ensures node: okNode(n)
+// whatever the tokens are, a value parse hands back a node (an invalid-value node at worst):
+// the public entry points call StartRange / Range on it without a nil test. (Proved for the body only:
+// parseObject / parseArray test the node for nil again, and that defensive code must stay reachable for the verifier.)
+//@   ensures-local some: n != nil
 //@ func parseObject(p *peeker) (n node, diags hcl.Diagnostics)
 //@   requires wf: wfPeeker(p)
 //@   modifies *
